@@ -364,8 +364,11 @@ fn send_rest(c: &mut Conn, kind: Kind, b: &[u8], from: usize) {
 }
 
 /// Does this process still own a listening TCP socket on `port`?
-fn own_listener_on(port: u16) -> bool {
-    let Ok(tcp) = std::fs::read_to_string("/proc/net/tcp") else { return false };
+/// Inodes of the listening TCP sockets on `port` that this process holds. The harness runs many
+/// servers in one process and the kernel hands a released ephemeral port out again at once, so a
+/// listener is identified by its socket inode, not by its port.
+fn own_listener_inodes(port: u16) -> Vec<String> {
+    let Ok(tcp) = std::fs::read_to_string("/proc/net/tcp") else { return vec![] };
     let want = format!(":{:04X}", port);
     let mut inodes = vec![];
     for line in tcp.lines().skip(1) {
@@ -375,18 +378,21 @@ fn own_listener_on(port: u16) -> bool {
         }
     }
     if inodes.is_empty() {
-        return false;
+        return vec![];
     }
-    let Ok(rd) = std::fs::read_dir("/proc/self/fd") else { return false };
+    let Ok(rd) = std::fs::read_dir("/proc/self/fd") else { return vec![] };
+    let mut own = vec![];
     for e in rd.flatten() {
         if let Ok(t) = std::fs::read_link(e.path()) {
             let t = t.to_string_lossy().to_string();
-            if inodes.iter().any(|i| t == format!("socket:[{i}]")) {
-                return true;
+            for i in &inodes {
+                if t == format!("socket:[{i}]") && !own.contains(i) {
+                    own.push(i.clone());
+                }
             }
         }
     }
-    false
+    own
 }
 
 pub fn run_history(cfg: &WorldCfg, events: &[Ev], shutdown_window: Duration) -> Outcome {
@@ -400,6 +406,7 @@ pub fn run_history(cfg: &WorldCfg, events: &[Ev], shutdown_window: Duration) -> 
         }
     };
     let addr = srv.addr;
+    let listener_inodes = own_listener_inodes(addr.port());
     let detached = cfg.mode == HandlerTaskMode::Detached;
     let n = cfg.kinds.len();
     let ids: Vec<String> = (0..n).map(|i| format!("c{i}")).collect();
@@ -696,7 +703,9 @@ pub fn run_history(cfg: &WorldCfg, events: &[Ev], shutdown_window: Duration) -> 
                 Err(_) => fail!("waiter_not_released", step + 1, json!("every waiter released after shutdown finished"), json!({"waiter": wi})),
             }
         }
-        if own_listener_on(addr.port()) {
+        // the very listening socket this server started with must be gone (another server of this
+        // process may meanwhile listen on the same port number)
+        if own_listener_inodes(addr.port()).iter().any(|i| listener_inodes.contains(i)) {
             fail!("port_still_listening_after_shutdown", step + 1, json!("listening socket closed"), json!({"port": addr.port()}));
         }
         if let Ok(c) = Conn::connect(addr) {
